@@ -69,11 +69,17 @@ def _create_new_header(
     if style is None:
         style = cast(Type[CommentStyle], PythonCommentStyle)
 
-    rendered = template.render(
-        copyright_lines=sorted(reuse_info.copyright_lines),
-        contributor_lines=sorted(reuse_info.contributor_lines),
-        spdx_expressions=sorted(map(str, reuse_info.spdx_expressions)),
-    ).strip("\n")
+    try:
+        rendered = template.render(
+            copyright_lines=sorted(reuse_info.copyright_lines),
+            contributor_lines=sorted(reuse_info.contributor_lines),
+            spdx_expressions=sorted(map(str, reuse_info.spdx_expressions)),
+        ).strip("\n")
+    except Exception as error:  # pylint: disable=broad-except
+        # A template of the project may fail in any way while it is rendered.
+        raise CommentCreateError(
+            f"could not render the template: {error}"
+        ) from error
 
     if template_is_commented:
         result = rendered
@@ -83,7 +89,11 @@ def _create_new_header(
         )
 
     # Verify that the result contains all ReuseInfo.
-    new_reuse_info = extract_reuse_info(result)
+    try:
+        new_reuse_info = extract_reuse_info(result)
+    except (ExpressionError, ParseError) as error:
+        # The template made something unparseable of the expressions.
+        raise MissingReuseInfoError() from error
     # (A template need not render contributors, but a contributor that is read
     # back differently from how it was given would be recorded wrongly.)
     if (
